@@ -245,6 +245,12 @@ Definition spec_d (b : list N) (chk : N) (d : dobs) (re nt : aobs) (fixcls : N) 
    else true).
 
 (* ------------------------------------------------------------------ check *)
+(* Order of the verdict: the part of the property that has no recorded exception first
+   (a violation there is code 3), then the recorded signatures for a failing re-assembly,
+   then the correspondence (a model mismatch is never hidden behind a known finding), then
+   the recorded signature c33_typetrack_pragma_lost: the disassembly, assembled as is, is
+   rejected although the same text assembles to the identical bytes with type tracking off
+   (Disassemble never prints "#pragma typetrack false"). *)
 Definition check_a (v : N) (salt : saltmode) (labs : list nat) (p : list sinstr)
            (asm : aobs) (chk : N) (d : dobs) (re nt : aobs) : term :=
   let m_asm := expect_asm v p labs salt (ao_ocb asm) (ao_bytes asm) in
@@ -253,19 +259,29 @@ Definition check_a (v : N) (salt : saltmode) (labs : list nat) (p : list sinstr)
   let corr := agree m_asm asm && (if accepted then round_agree m_round d nt else true) in
   let nontrivial := accepted && negb (match p with [] => true | _ => false end) in
   let detail := TL [ares_term m_asm; round_term m_round] in
-  if spec_a_pre v asm chk d re nt && negb (spec_a_post asm re nt) && agree m_asm asm then
-    if sig_longline v p asm nt then v_known "c33_line_too_long" detail
-    else if sig_deadcode v p labs m_round asm nt then v_known "c33_deadcode_label_lost" detail
+  let nt_same := (ao_cls nt =? 0) && bytes_eqb (ao_bytes nt) (ao_bytes asm) && ao_saltok nt in
+  if negb (spec_a_pre v asm chk d re nt) then v_viol detail
+  else if accepted && negb nt_same then
+    if agree m_asm asm && sig_longline v p asm nt then v_known "c33_line_too_long" detail
+    else if agree m_asm asm && sig_deadcode v p labs m_round asm nt
+    then v_known "c33_deadcode_label_lost" detail
     else v_viol detail
-  else verdict (spec_a v asm chk d re nt) corr nontrivial detail.
+  else if negb (spec_a_post asm re nt) then v_viol detail
+  else if negb corr then v_diff detail
+  else if accepted && (ao_cls re =? 1) then v_known "c33_typetrack_pragma_lost" detail
+  else if nontrivial then v_ok else v_triv.
 
 Definition check_d (b : list N) (chk : N) (d : dobs) (re nt : aobs) (fixcls : N) (fixb : list N)
   : term :=
   let m_round := model_round b (do_ocf d) nt in
   let corr := round_agree m_round d nt in
   let nontrivial := (chk =? 0) && (ao_cls nt =? 0) in
-  verdict (spec_d b chk d re nt fixcls fixb) corr nontrivial
-          (TL [round_term m_round; tb (canonical b)]).
+  let detail := TL [round_term m_round; tb (canonical b)] in
+  if negb (spec_d b chk d re nt fixcls fixb) then v_viol detail
+  else if negb corr then v_diff detail
+  else if (ao_cls nt =? 0) && bytes_eqb (ao_bytes nt) b && (ao_cls re =? 1)
+  then v_known "c33_typetrack_pragma_lost" detail
+  else if nontrivial then v_ok else v_triv.
 
 Definition check (t : term) : term :=
   match t with
